@@ -180,6 +180,22 @@ def observe_io(graph, sd):
         problems.append("instance(): a pre-task was executed twice")
     case["inst"][root] = {"nodes": len(set(posts)), "pre": len(execs)}
 
+    # --- validated on its own first (validate() is public), then turned into objects: generated values are there
+    try:
+        objsv = R.build(graph, None)
+        objsv[root].__xpm__.validate()
+        instv = objsv[root].instance(DirectoryContext(Path("/job")))
+        mpv = {}
+        matches(graph, root, instv, mpv, [], "", instance=True)
+        for n in mpv:
+            o = objsv[n]
+            a = {"K": "p", "K2": "q", "K2Old": "q", "K2Older": "q", "G": "p", "GF": "p"}.get(graph[n]["cls"])
+            if a and o.__xpm__.values.get(a) is None:
+                problems.append(f"instance() after validate(): the generated parameter {a} of node {n} was never generated")
+                break
+    except Exception as e:
+        problems.append(f"instance() after validate(): raised {e!r}"[:300])
+
     # --- a second instance() call sharing the object store: nothing is rebuilt, re-initialised or re-executed
     from experimaestro import ObjectStore
 
@@ -257,6 +273,8 @@ def observe_io(graph, sd):
         problems.append(f"params.json as instance: {len(posts)} post-initialisations for {len(defs2)} definitions")
     want_pre = {i for d in defs2 for i in d.get("pre-tasks", [])}
     want_init = defs2[-1].get("init-tasks", [])
+    if len(want_init) != len(graph[root]["init"]):
+        problems.append(f"params.json as instance: the definition of the task lists {len(want_init)} init tasks, the task was configured with {len(graph[root]['init'])}")
     if len(execs) != len(want_pre) + len(want_init):
         problems.append(f"params.json as instance: {len(execs)} lightweight task executions, expected {len(want_pre)} pre-tasks + {len(want_init)} init tasks")
     kinds = [c[0] for c in S.CALLS]
